@@ -1084,6 +1084,9 @@ def matchPat : Nat → String → Pat → Value → Option (Bool × List (String
     match l, v with
     | .int n _, .int _ a => some (decide (a = if neg then -(n : Int) else n), [])
     | .bool b, .bool c => if neg then none else some (c == b, [])
+    -- [shm] begin: a string literal pattern (`Some("")`) matches a `&str` with exactly that content
+    | .str s, .str t => if neg then none else some (decide (t = s), [])
+    -- [shm] end
     | _, _ => none
   | _ + 1, _, .range lo hi incl, v =>
     match v with
